@@ -33,13 +33,13 @@ def gen_modules(ctx):
         m = {"abi": pats(), "attrs": [], "types": [], "nested": rng.random() < 0.5}
         for _ in range(rng.randint(1, 4 if ctx.quick() else 8)):
             tcount += 1
-            t = {"name": f"Ty{tcount}", "kind": rng.choice(["opaque", "opaque", "struct", "enum"]), "abi": pats(True), "attrs": attrs("t"), "impls": []}
+            t = {"name": f"Ty{tcount}", "kind": rng.choice(["opaque", "opaque", "openum", "struct", "enum"]), "abi": pats(True), "attrs": attrs("t"), "impls": []}
             for _ in range(rng.randint(0, 2)):
                 im = {"abi": pats(), "attrs": [a for a in attrs("i") if a[1] == "disable"], "methods": []}
                 for _ in range(rng.randint(1, 3)):
                     uid[0] += 1
                     im["methods"].append({"name": f"me{uid[0]}", "abi": [p if "pure" not in p else p + "m" for p in pats(True)], "attrs": attrs("m"),
-                                          "static": t["kind"] != "opaque" or rng.random() < 0.3})
+                                          "static": t["kind"] not in ("opaque", "openum") or rng.random() < 0.3})
                 t["impls"].append(im)
             m["types"].append(t)
         mods.append(m)
@@ -74,6 +74,8 @@ def bridge(mods):
             ab = "".join(f'    #[diplomat::abi_rename = "{p}"]\n' for p in t["abi"]) + "".join("    " + rust_attr(a) for a in t["attrs"])
             if t["kind"] == "opaque":
                 s += f"    #[diplomat::opaque]\n{ab}    pub struct {t['name']};\n"
+            elif t["kind"] == "openum":
+                s += f"    #[diplomat::opaque]\n{ab}    pub enum {t['name']} {{ A, B }}\n"
             elif t["kind"] == "struct":
                 s += f"{ab}    pub struct {t['name']} {{ pub x: u8 }}\n"
             else:
@@ -103,7 +105,7 @@ def coq_mods(mods):
         for t in m["types"]:
             ims = [f"mkImpl {cs(im['abi'])} {cattrs(im['attrs'])} " +
                    clist([f"mkMeth {cstr(me['name'])} {cs(me['abi'])} {cattrs(me['attrs'])}" for me in im["methods"]]) for im in t["impls"]]
-            tys.append(f"mkTy {cstr(t['name'])} {cbool(t['kind'] == 'opaque')} {cs(t['abi'])} {cattrs(t['attrs'])} {clist(ims)}")
+            tys.append(f"mkTy {cstr(t['name'])} {cbool(t['kind'] in ('opaque', 'openum'))} {cs(t['abi'])} {cattrs(t['attrs'])} {clist(ims)}")
         out.append(f"mkMod {cs(m['abi'])} {cattrs(m['attrs'])} {clist(tys)}")
     return clist(out)
 
@@ -141,8 +143,10 @@ def refs_of(backend, out):
             syms |= set(re.findall(r"_DiplomatFfiUse\('(\w+)'\)", open(f).read()))
     elif backend == "kotlin":
         for f in files("", ".kt"):
-            for blk in re.findall(r"interface \w+Lib: Library \{(.*?)\n\}", open(f).read(), re.S):
+            txt = open(f).read()
+            for blk in re.findall(r"interface \w+Lib: Library \{(.*?)\n\}", txt, re.S):
                 syms |= set(re.findall(r"fun (\w+)\(", blk))
+            syms |= set(re.findall(r"\blib\.(\w+)\(", txt))          # every call site, not only the declarations
     return {s for s in syms if not RUNTIME.match(s)}
 
 
@@ -159,7 +163,13 @@ def check(ctx, replay=None):
     d = os.path.join(BUILD, "e2e", "c06")
     os.makedirs(d, exist_ok=True)
     for bi in range(nb):
-        mods = dedupe_disables(gen_modules(ctx), support, others)
+        mods = gen_modules(ctx)
+        if bi % 3 == 0:
+            # always present: an opaque enum and an opaque struct that carry their own abi_rename (their destructors must follow it)
+            mods[0]["types"][0]["kind"] = "openum"; mods[0]["types"][0]["abi"] = ["kind_{0}_v2"]
+            if len(mods[0]["types"]) > 1:
+                mods[0]["types"][1]["kind"] = "opaque"; mods[0]["types"][1]["abi"] = ["st_{0}"]
+        mods = dedupe_disables(mods, support, others)
         if replay and "modules" in replay.get("replay", {}):
             mods = replay["replay"]["modules"]
         src_txt = bridge(mods)
@@ -183,9 +193,12 @@ def check(ctx, replay=None):
         exported = {s for s in own if not RUNTIME.match(s) and not s.startswith('_')}
         nsyms += len(exported)
         goals.append(f"agree_exported {cm} {clist([cstr(s) for s in sorted(exported)])}"); meta.append(("exported", mods))
-        for b in BACKENDS:
-            o = os.path.join(d, f"out_{b}")
-            q = e2e.run_tool(b, src, o, config=CFG)
+        for b in BACKENDS + ["kotlin+finalizers"]:
+            o = os.path.join(d, f"out_{b.replace('+', '_')}")
+            extra_cfg = []
+            if b == "kotlin+finalizers":
+                b, extra_cfg = "kotlin", ["kotlin.use_finalizers_not_cleaners=true"]
+            q = e2e.run_tool(b, src, o, config=CFG + extra_cfg)
             if q.returncode != 0:
                 if viol < 3:
                     viol += 1
